@@ -675,10 +675,23 @@ pub fn one_case(ctx: &Ctx, case: u64, l: &mut Local) {
                 payload["cnf"] = json!({"jwk": keys::holder_jwk_json_canonical(halg, 0)});
             }
             let spelling = if r.chance(20) { 1 + r.below(5) } else { 0 };
-            let jwt = if spelling == 0 {
+            // a fifth of the (validly signed) tokens carry protected-header members with multi-byte characters at
+            // every small offset, characters whose case mapping changes their length, media-type prefixes / suffixes
+            let hdr_text = if r.chance(20) {
+                let mut h = json!({"alg": alg.name()});
+                for k in ["typ", "kid", "cty", "x"] {
+                    if r.chance(50) {
+                        h[k] = json!(tamper::boundary_text(&mut r));
+                    }
+                }
+                h.to_string()
+            } else {
+                json!({"alg": alg.name()}).to_string()
+            };
+            let jwt = if spelling == 0 && hdr_text.len() < 16 {
                 api::sign_payload(alg, 0, &payload, None)
             } else {
-                api::sign_text(&json!({"alg": alg.name()}).to_string(), &model::respell(&payload, spelling), alg.jwt(), &keys::issuer_enc(alg, 0))
+                api::sign_text(&hdr_text, &model::respell(&payload, spelling), alg.jwt(), &keys::issuer_enc(alg, 0))
             };
             let kb = if with_kb {
                 let mut hashed = jwt.clone();
